@@ -1,0 +1,73 @@
+//go:build verif
+
+package scheduler
+
+import (
+	"errors"
+	"reflect"
+)
+
+// Exported names of the instrumentation points.
+const (
+	VerifLoopTop     = verifLoopTop
+	VerifDispatch    = verifDispatch
+	VerifEnqClosed   = verifEnqClosed
+	VerifEnq         = verifEnq
+	VerifResult      = verifResult
+	VerifResultDone  = verifResultDone
+	VerifTick        = verifTick
+	VerifLoopExit    = verifLoopExit
+	VerifWorkerStart = verifWorkerStart
+	VerifWorkerGot   = verifWorkerGot
+	VerifWorkerPost  = verifWorkerPost
+	VerifEnqueueSend = verifEnqueueSend
+	VerifWaitClose   = verifWaitClose
+	VerifWaitClosed  = verifWaitClosed
+	VerifNumPoints   = verifWaitClosed + 1
+)
+
+// VerifHook, when non-nil, is called at every instrumentation point. key
+// identifies the scheduler (see VerifKey); it is the only handle a worker has.
+// It must be set before any scheduler is created and never changed afterwards.
+// The hook must not modify scheduler state.
+var VerifHook func(p int, key uintptr, s *Scheduler, j *ScheduledJob, a, b, c int)
+
+func verifPoint(p int, s *Scheduler, j *ScheduledJob, a, b, c int) {
+	if h := VerifHook; h != nil {
+		h(p, VerifKey(s), s, j, a, b, c)
+	}
+}
+
+// verifResultPoint reports a result taken off donec by the loop:
+// a = 1 if the job failed, b = 1 if it failed with the invalid-job sentinel.
+func verifResultPoint(s *Scheduler, j *ScheduledJob, err error) {
+	if h := VerifHook; h != nil {
+		a, b := 0, 0
+		if err != nil {
+			a = 1
+			if errors.Is(err, errJobInvalid) {
+				b = 1
+			}
+		}
+		h(verifResult, VerifKey(s), s, j, a, b, 0)
+	}
+}
+
+func verifWorkerPoint(p int, donec chan<- jobResult, j *ScheduledJob) {
+	if h := VerifHook; h != nil {
+		h(p, reflect.ValueOf(donec).Pointer(), nil, j, 0, 0, 0)
+	}
+}
+
+// VerifKey identifies a scheduler by its result channel, which is the one
+// thing its loop, its workers and its callers all hold.
+func VerifKey(s *Scheduler) uintptr { return reflect.ValueOf(s.donec).Pointer() }
+
+// VerifDeps returns the dependencies a job was enqueued with.
+func VerifDeps(j *ScheduledJob) []*ScheduledJob { return j.deps }
+
+// VerifConcurrency returns the effective worker limit of s.
+func VerifConcurrency(s *Scheduler) int { return s.concurrency }
+
+// VerifContinueOnError reports the error mode of s.
+func VerifContinueOnError(s *Scheduler) bool { return s.continueOnError }
